@@ -250,6 +250,10 @@ func checkPathData(c Case) error {
 		}
 		if len(affs) > 0 || c.SetTransformEmpty {
 			g.SetTransform(affs...)
+			// the caller's list is the caller's: it is reused for something else right away
+			for i := range affs {
+				affs[i] = generate.Concat(generate.Scale(77, -3), generate.Translate(-1000, 5))
+			}
 		}
 		if c.DestAfterTransform {
 			// the destination is (re)assigned after the transform was configured
@@ -298,6 +302,9 @@ func checkPathData(c Case) error {
 				affs2 = append(affs2, f.aff())
 			}
 			g.SetTransform(affs2...)
+			for i := range affs2 {
+				affs2[i] = generate.Scale(-9, 13)
+			}
 			if err := g.SetPathData(c.Second.D, c.Second.Adj); err != nil {
 				return harness.Violatef("c20/error", "second SetPathData(%q) returned %v", c.Second.D, err)
 			}
